@@ -57,10 +57,56 @@ int cmp_keys(int a, int b)
     case 3: return a < b ? -2000000000 : a > b ? 2000000000 : 0;
     }
 }
+// "any comparison function" includes one that uses another tree while it compares. In re-entrant cases (cmp byte,
+// bits 6 and 5) every comparison of the trees under test performs a hitting and a missing find in a small red-black
+// tree of its own and a stopped walk over it.
+bool g_reenter;
+struct cstl_rbtree g_aux;
+int g_aux_token;
+Elem g_aux_e[3];
+int aux_cmp(const void *a, const void *b, void *p)
+{
+    CHECK_NOTHROW(p == &g_aux_token, g_cmp_clause, "compare function of the auxiliary tree received a different priv pointer");
+    int x = ((const Elem *)a)->key, y = ((const Elem *)b)->key;
+    return (x > y) - (x < y);
+}
+int aux_visit(const void *e, cstl_bintree_visit_order_t ord, void *p)
+{
+    if (ord == CSTL_BINTREE_VISIT_ORDER_MID || ord == CSTL_BINTREE_VISIT_ORDER_LEAF) { ++*(int *)p; if (((const Elem *)e)->key == 1000003) return 7; }
+    return 0;
+}
+void aux_setup()
+{
+    HarnessScope hs;
+    memset(&g_aux, 0xA5, sizeof g_aux);
+    cstl_rbtree_init(&g_aux, aux_cmp, &g_aux_token, offsetof(Elem, rn));
+    for (int i = 0; i < 3; i++) {
+        memset(&g_aux_e[i], 0x5a, sizeof g_aux_e[i]);
+        g_aux_e[i].key = 1000001 + 2 * i;
+        LIB(cstl_rbtree_insert(&g_aux, &g_aux_e[i], nullptr));
+    }
+}
+void aux_lookups(int x)
+{
+    HarnessScope hs;
+    CNT("class.tree.reentrant_cmp");
+    Elem hit, miss;
+    hit.key = (int)(1000001 + 2 * (((unsigned)x) % 3));
+    miss.key = (int)(2000000 + (x & 0xffff));
+    const void *r;
+    LIB(r = cstl_rbtree_find(&g_aux, &hit, nullptr));
+    CHECK_NOTHROW(r == &g_aux_e[((unsigned)x) % 3], "C01.find.iff", "a find made from inside the comparison function of another tree did not return the present element");
+    LIB(r = cstl_rbtree_find(&g_aux, &miss, nullptr));
+    CHECK_NOTHROW(r == nullptr, "C01.find.iff", "a find made from inside the comparison function of another tree returned an element for an absent key");
+    int seen = 0, rv;
+    LIB(rv = cstl_rbtree_foreach(&g_aux, aux_visit, &seen, CSTL_BINTREE_FOREACH_DIR_FWD));
+    CHECK_NOTHROW(rv == 7 && seen == 2, "C01.walk.stop", "a walk made from inside the comparison function of another tree presented %d elements and returned %d (expected 2 and 7)", seen, rv);
+}
 int cmp_cb(const void *a, const void *b, void *p)
 {
     CHECK_NOTHROW(p == &g_priv_token, g_cmp_clause, "compare function received a different priv pointer");
     g_cmp_calls++;
+    if (g_reenter) aux_lookups(((const Elem *)a)->key ^ ((const Elem *)b)->key);
     return cmp_keys(((const Elem *)a)->key, ((const Elem *)b)->key);
 }
 // C02: "... so find, insert and erase stay logarithmic": one library call on a red-black tree of n elements makes at
@@ -593,6 +639,8 @@ void vf_run(const uint8_t *data, size_t len)
     uint8_t cmpb = cur.u8();
     g_cmp_kind = cmpb % 4;
     bool swap_epilogue = (cmpb & 0x80) != 0;
+    g_reenter = false;
+    if ((cmpb & 0x60) == 0x60 && len < 3000) { aux_setup(); g_reenter = true; }
     size_t maxlive = MAXLIVE[cur.u8() % NMAXLIVE];
     int prof = cur.u8() % NPROFILES;
     bool c15 = g_prop == "C15", c02 = g_prop == "C02";
